@@ -8,5 +8,5 @@ for c in "$@"; do
   echo "exit=${PIPESTATUS[0]}"
 done
 git -C /repo checkout -- . ; git -C /repo status --short | head -3
-# leave no binary behind that was built from the changed tree
-(cd /verif/harness && GOFLAGS=-mod=mod GOPROXY=off go build -tags verif -o /verif/.build/hkharness ./cmd/hkharness) >/dev/null 2>&1
+# leave nothing behind that was built or regenerated from the changed tree (harness binary, Generated/*.lean, hkdriver)
+/verif/check --setup >/dev/null 2>&1
